@@ -34,10 +34,10 @@ import (
 const c10MaxStack = 64 << 20
 
 type c10Job struct {
-	ID    int    `json:"id"`
-	Entry string `json:"entry"`
-	Form  string `json:"form,omitempty"`
-	Depth int    `json:"depth,omitempty"`
+	ID    int      `json:"id"`
+	Entry string   `json:"entry"`
+	Form  string   `json:"form,omitempty"`
+	Depth int      `json:"depth,omitempty"`
 	Hex   string   `json:"hex,omitempty"`
 	Skip  []string `json:"skip,omitempty"` // stage families not to run
 	// JSONEncFactor (parent side only): the CPU budget of the json-encode stages is multiplied by this when > 1.  The
@@ -252,6 +252,10 @@ type c10JobResult struct {
 	Detail  string
 	CPUms   int64
 	Started []string // stages started, in order
+	// the stage that used the most CPU (parent-side measurement, 10 ms granularity) — evidence of how far below the
+	// per-stage budget the completed stages stayed
+	MaxStage   string
+	MaxStageMs int64
 }
 
 // c10RunJob runs one job on the worker (restarting it when needed). cpuBudget in ms.
@@ -306,9 +310,13 @@ func c10RunJob(wp **c10Worker, j c10Job, cpuBudgetMs int64) c10JobResult {
 			if strings.HasPrefix(l, "S ") {
 				f := strings.SplitN(l, " ", 3)
 				if len(f) == 3 {
+					now := procCPUms(pid)
+					if d := now - cpu0; d > out.MaxStageMs {
+						out.MaxStage, out.MaxStageMs = stage, d
+					}
 					stage = f[2]
 					out.Started = append(out.Started, stage)
-					cpu0 = procCPUms(pid) // the budget is per stage
+					cpu0 = now // the budget is per stage
 					wall0 = time.Now()
 				}
 				continue
@@ -319,6 +327,9 @@ func c10RunJob(wp **c10Worker, j c10Job, cpuBudgetMs int64) c10JobResult {
 					_ = json.Unmarshal([]byte(f[2]), &out.Res)
 				}
 				out.Outcome, out.Stage, out.CPUms = out.Res.Outcome, out.Res.Stage, out.Res.CPUms
+				if d := procCPUms(pid) - cpu0; d > out.MaxStageMs {
+					out.MaxStage, out.MaxStageMs = stage, d
+				}
 				return out
 			}
 		case <-tick.C:
@@ -473,7 +484,7 @@ var c10SecondaryForms = map[string]bool{"paren": true, "not": true, "record": tr
 var c10QuickForms = map[string]bool{
 	"paren": true, "set": true, "record": true, "if-else": true, "not": true, "access": true, "add": true, "and": true, "method-arg": true, "extfun": true,
 	"has-chain": true,
-	"j-not": true, "j-and-left": true, "j-record": true, "j-set": true, "j-ext": true, "j-value-set": true,
+	"j-not":     true, "j-and-left": true, "j-record": true, "j-set": true, "j-ext": true, "j-value-set": true,
 	"v-array": true, "v-object": true, "v-mixed": true, "v-wide": true,
 	"s-set": true, "s-record": true, "s-many-entities": true, "s-typeref-chain": true, "sj-set": true, "sj-record": true,
 }
@@ -571,6 +582,13 @@ func c10RunDeep(c *vh.Ctx, entries []*c10Entry) *c10DeepReport {
 	thorough := c.Thorough()
 	budget, calNote := c10Calibrate(thorough)
 	rep.Notes = append(rep.Notes, calNote)
+	open := map[string]bool{}
+	for _, k := range c.Known {
+		if k.Property == c.Prop && k.Status == "finding" {
+			open[k.Class] = true
+		}
+	}
+	c10OpenClass = func(cls string) bool { return open[cls] }
 	depths := []int{10, 1000, 10000, 100000}
 	jsonDepths := []int{10, 1000, 2500, 4900, 100000}
 	if thorough {
@@ -680,6 +698,26 @@ func c10RunDeep(c *vh.Ctx, entries []*c10Entry) *c10DeepReport {
 }
 
 // c10StagePassed: the job got past every stage of the family (it died, if at all, in a later stage).
+// c10OpenClass reports whether a class is a recorded OPEN finding of C10 (set by c10RunDeep from known_findings.json).
+// A CPU-budget overrun of any other class is confirmed by a second run of the same job in a fresh worker before it is
+// reported: CPU time is not free of noise (the process CPU of an allocation-heavy stage that needs 1.4 s on a quiet
+// machine was seen above 4 s with four checks running side by side), and an overrun that does not repeat is the load,
+// not the decoder — while a stage that really became quadratic or exponential exceeds its budget every time.
+var c10OpenClass = func(string) bool { return false }
+
+// c10Confirm: r is the result of run(d).  A cpu-budget overrun whose class (classOf) is not an open finding is run again;
+// unless the second run overruns in the same stage family, the second result replaces the first (note != "").
+func c10Confirm(r c10JobResult, rerun func() c10JobResult, classOf func(c10JobResult) string) (c10JobResult, string) {
+	if r.Outcome != "cpu-budget" || c10OpenClass(classOf(r)) {
+		return r, ""
+	}
+	rr := rerun()
+	if rr.Outcome == "cpu-budget" && c10StageFamily(rr.Stage) == c10StageFamily(r.Stage) {
+		return r, ""
+	}
+	return rr, fmt.Sprintf("cpu-budget@%s(%dms)-not-confirmed-by-a-second-run", r.Stage, r.CPUms)
+}
+
 func c10StagePassed(r c10JobResult, fam string) bool {
 	seen := false
 	for i, st := range r.Started {
@@ -765,10 +803,30 @@ ladder:
 			c10KnownSlow.Unlock()
 		}
 		for {
-			r := run(d)
+			r, unconfirmed := c10Confirm(run(d), func() c10JobResult {
+				// the second run is judged by the linear pipeline as it runs NOW (ratios, not absolutes): a machine that got
+				// busier since the calibration at the start makes every job slower, the calibration job included
+				if nb, _ := c10Calibrate(thorough); nb.unitNs > budget.unitNs {
+					budget.unitNs = nb.unitNs
+				}
+				return run(d)
+			}, func(x c10JobResult) string {
+				if chn.growth && len(chn.form.Build(d)) < c10TinyInput {
+					return "exponential-time:" + fam + ":" + c10StageFamily(x.Stage)
+				}
+				return "cpu-budget:" + fam + ":" + c10StageFamily(x.Stage)
+			})
+			if unconfirmed != "" {
+				outcomes = append(outcomes, fmt.Sprintf("%d:%s", d, unconfirmed))
+			}
 			o := r.Outcome
 			if o == "accepted" || o == "rejected" {
-				outcomes = append(outcomes, fmt.Sprintf("%d:%s(%dms)", d, o, r.CPUms))
+				if r.MaxStageMs*4 >= budget.forBytes(len(chn.form.Build(d))) {
+					// a completed stage that used a quarter of its budget or more: recorded, so that a budget that is too tight for a loaded machine shows in the evidence
+					outcomes = append(outcomes, fmt.Sprintf("%d:%s(%dms; %s %dms of %dms)", d, o, r.CPUms, c10StageFamily(r.MaxStage), r.MaxStageMs, budget.forBytes(len(chn.form.Build(d)))))
+				} else {
+					outcomes = append(outcomes, fmt.Sprintf("%d:%s(%dms)", d, o, r.CPUms))
+				}
 				lastOK = d
 				break
 			}
@@ -811,7 +869,7 @@ ladder:
 			switch o {
 			case "stack-overflow":
 				finds = append(finds, vh.Finding{Class: bad.Site + "-unbounded-recursion",
-					What: fmt.Sprintf("%s: form %s at depth %d (%d input bytes) overflows a %d MiB stack in stage %s, recursion in %s (fatal, not recoverable)", chn.entry, chn.form.Name, firstBad, nbytes, c10MaxStack>>20, bad.Stage, bad.Site),
+					What:  fmt.Sprintf("%s: form %s at depth %d (%d input bytes) overflows a %d MiB stack in stage %s, recursion in %s (fatal, not recoverable)", chn.entry, chn.form.Name, firstBad, nbytes, c10MaxStack>>20, bad.Stage, bad.Site),
 					Check: "oracle", Op: chn.entry, Input: input, Expected: "a value or an error", Actual: map[string]any{"outcome": o, "stage": bad.Stage, "site": bad.Site, "stderr": bad.Detail}})
 			case "cpu-budget":
 				if chn.growth && nbytes < c10TinyInput {
@@ -834,20 +892,20 @@ ladder:
 					c10KnownSlow.Unlock()
 				}
 				finds = append(finds, vh.Finding{Class: "cpu-budget:" + fam + ":" + stFam,
-					What: fmt.Sprintf("%s: form %s at depth %d (%d input bytes) did not finish stage %s within %d ms of CPU (running in %s)", chn.entry, chn.form.Name, firstBad, nbytes, bad.Stage, budget.forBytes(nbytes), bad.Site),
+					What:  fmt.Sprintf("%s: form %s at depth %d (%d input bytes) did not finish stage %s within %d ms of CPU (running in %s)", chn.entry, chn.form.Name, firstBad, nbytes, bad.Stage, budget.forBytes(nbytes), bad.Site),
 					Check: "oracle", Op: chn.entry, Input: input, Expected: "a value or an error in bounded time", Actual: map[string]any{"outcome": o, "stage": bad.Stage, "site": bad.Site, "detail": bad.Detail}})
 			case "oom":
 				finds = append(finds, vh.Finding{Class: "memory:" + fam + ":" + stFam,
-					What: fmt.Sprintf("%s: form %s at depth %d (%d input bytes) exceeded the memory cap in stage %s", chn.entry, chn.form.Name, firstBad, nbytes, bad.Stage),
+					What:  fmt.Sprintf("%s: form %s at depth %d (%d input bytes) exceeded the memory cap in stage %s", chn.entry, chn.form.Name, firstBad, nbytes, bad.Stage),
 					Check: "oracle", Op: chn.entry, Input: input, Actual: map[string]any{"outcome": o, "stage": bad.Stage, "detail": bad.Detail}})
 			case "panic":
 				e := &c10Entry{Name: chn.entry, Family: fam}
 				finds = append(finds, vh.Finding{Class: c10PanicClass(e, bad.Res),
-					What: fmt.Sprintf("%s: form %s at depth %d: panic in stage %s at %s: %s", chn.entry, chn.form.Name, firstBad, bad.Res.Stage, bad.Res.Site, bad.Res.Panic),
+					What:  fmt.Sprintf("%s: form %s at depth %d: panic in stage %s at %s: %s", chn.entry, chn.form.Name, firstBad, bad.Res.Stage, bad.Res.Site, bad.Res.Panic),
 					Check: "oracle", Op: chn.entry, Input: input, Actual: bad.Res})
 			default:
 				finds = append(finds, vh.Finding{Class: "worker-crash:" + fam + ":" + stFam,
-					What: fmt.Sprintf("%s: form %s at depth %d: worker died (%s) in stage %s: %s", chn.entry, chn.form.Name, firstBad, o, bad.Stage, bad.Detail),
+					What:  fmt.Sprintf("%s: form %s at depth %d: worker died (%s) in stage %s: %s", chn.entry, chn.form.Name, firstBad, o, bad.Stage, bad.Detail),
 					Check: "oracle", Op: chn.entry, Input: input, Actual: map[string]any{"outcome": o, "detail": bad.Detail}})
 			}
 			if stFam == "decode" || o == "panic" || o == "crash" || len(failures) >= maxFailures {
